@@ -265,7 +265,9 @@ def check(case):
             scaleH = abs(H0) + float(np.max(np.abs(y0))) ** 2 + 1.0
             order = M.order(name)
             bound = 50 * scaleH * abs(h) ** min(order, 2)
-            if not np.all(np.isfinite(errs)) or q4 > 3 * q1 + 1e-11 * scaleH:
+            # implicit schemes are solved to a Newton tolerance of 1e-12 per step: that residual accumulates over the run
+            floor = (1e-11 if not implicit else 10 * nsteps * 1e-12) * scaleH
+            if not np.all(np.isfinite(errs)) or q4 > 3 * q1 + floor:
                 viols.append(V("energy_drift", "{} ({}, h = {}): energy error grows from {:.3e} (first quarter) to {:.3e} (last quarter of {} steps)".format(name, Hm.kind, h, q1, q4, nsteps), sig, **attrs))
             elif q4 > bound:
                 viols.append(V("energy_error", "{} ({}, h = {}): energy error {:.3e} exceeds {:.3e}".format(name, Hm.kind, h, q4, bound), sig, **attrs))
